@@ -3,18 +3,21 @@
 apply patch.diff to /repo, run the quick checks listed in meta.json["checks_to_run"], record which
 raise a VIOLATION (and with which rule ids) in meta.json, and undo the patch."""
 import json, os, subprocess, sys, re, glob
+# under `vp run --with-repo` both trees are snapshots: evaluate there, leaving /repo and /verif alone
+VERIF = os.path.dirname(os.path.dirname(os.path.abspath(__file__)))
+REPO = os.environ.get('VP_RUN_REPO', '/repo') if VERIF != '/verif' else '/repo'
 scale = sys.argv[1] if len(sys.argv) > 1 else "0.5"
-ids = sys.argv[2:] or sorted(os.listdir('/verif/seeded'))
+ids = sys.argv[2:] or sorted(os.listdir(f'{VERIF}/seeded'))
 for sid in ids:
-    d = f'/verif/seeded/{sid}'
+    d = f'{VERIF}/seeded/{sid}'
     meta = json.load(open(f'{d}/meta.json'))
-    if subprocess.call(['git', '-C', '/repo', 'apply', f'{d}/patch.diff']) != 0:
+    if subprocess.call(['git', '-C', REPO, 'apply', f'{d}/patch.diff']) != 0:
         print(sid, 'PATCH DOES NOT APPLY'); continue
     caught, missed, detail, rates = [], [], {}, {}
     try:
         for prop in meta['checks_to_run']:
             env = dict(os.environ, VERIF_SCALE=scale)
-            p = subprocess.run(['./bin/check', prop, 'quick'], cwd='/verif', env=env, capture_output=True, text=True)
+            p = subprocess.run(['./bin/check', prop, 'quick'], cwd=VERIF, env=env, capture_output=True, text=True)
             rules = sorted(set(re.findall(r'^  rule=(\S+)', p.stdout, re.M)))
             m = re.search(r'^%s: (\d+) runs .*?violating runs: (\{.*?\});' % prop, p.stdout, re.M)
             if m:
@@ -25,9 +28,9 @@ for sid in ids:
                 missed.append(prop)
                 if p.returncode not in (0, 1): detail[prop] = [f'exit {p.returncode}']
     finally:
-        subprocess.call(['git', '-C', '/repo', 'checkout', '--', '.'])
-        subprocess.call(['git', '-C', '/verif', 'checkout', '--', 'evidence'])
-        for f in glob.glob('/verif/replays/*.json'): os.remove(f)
+        subprocess.call(['git', '-C', REPO, 'checkout', '--', '.'])
+        subprocess.call(['git', '-C', VERIF, 'checkout', '--', 'evidence'])
+        for f in glob.glob(f'{VERIF}/replays/*.json'): os.remove(f)
     meta['caught_by'] = [f'{p}: ' + ', '.join(detail[p]) for p in caught]
     meta['missed_by'] = missed
     meta['hit_rates'] = rates
